@@ -98,6 +98,10 @@ pub const SEEDS: &[(&str, &[&str])] = &[
     ("%m(%n(", &["", "))"]),
     ("%macro m; %if a %then %do; ", &["", " %end; %mend;"]),
     ("cards4;\n", &["", ";;;;"]),
+    ("%macro m(a", &["", "); %mend;"]),
+    ("%sysfunc(f(1)", &["", ")"]),
+    ("%m(%n()", &["", ")"]),
+    ("%m(a ", &["", ")"]),
     ("* ", &["", ";"]),
     ("%* ", &["", ";"]),
     ("/* ", &["", "*/"]),
@@ -234,6 +238,15 @@ pub fn boundary_atoms() -> Vec<String> {
         "\"".to_string(),
         // the cursor's end-of-input sentinel is '\0': a real NUL in the text must stay a character
         "\0".to_string(),
+        // one representative per remaining character class of the dispatchers (hook H6 showed
+        // these classes were never seen in the macro definition / tail argument modes)
+        ".".to_string(),
+        "$".to_string(),
+        "<".to_string(),
+        "+".to_string(),
+        ":".to_string(),
+        "^".to_string(),
+        "é".to_string(),
     ]
 }
 
